@@ -38,13 +38,21 @@ def direction(d, k, family):
     return v[:k]
 
 
-def make_grid(g, k, n, family, d):
+def make_grid(g, k, n, family, d, zeros=False):
     if family == "int":
         w = g.permutation(np.array([-3.0, -2.0, -1.0, 1.0, 2.0, 3.0, 4.0, 5.0]))[:n]
         p = g.permutation(np.arange(-4.0, 5.0))[:n] if k == 1 else g.integers(-3, 4, (n, k)).astype(float)
     else:
         w = g.uniform(0.1, 1.5, n) * g.choice([1.0, 1.0, 1.0, -1.0], n)
         p = g.normal(size=n) if k == 1 else g.normal(size=(n, k))
+    if zeros:
+        # exactly-zero weights (the library's own Chebyshev-Lobatto rule has them at both ends): a run at the start of the first domain makes a whole
+        # run of product weights vanish, so some chunks consist of zero weights only; one more zero inside every later domain
+        w = w.copy()
+        if d == 0:
+            w[: max(1, n // 2)] = 0.0
+        elif n > 1:
+            w[(d * 2) % n] = 0.0
     if k == 1 and d % 2 == 0:
         return OneDGrid(p.copy(), w.copy())
     return Grid(p.copy(), w.copy())
@@ -56,9 +64,9 @@ def build(seed, cfg, family):
     g = rng(seed, f"C18|{family}|{mode}|{dims}|{sizes}")
     nd = len(dims)
     if mode == "repeat":
-        g0 = make_grid(g, dims[0], sizes[0], family, 0)
+        g0 = make_grid(g, dims[0], sizes[0], family, 0, cfg.get("zeros", False))
         return MultiDomainGrid([g0], num_domains=nd), [g0] * nd
-    grids = [make_grid(g, k, n, family, d) for d, (k, n) in enumerate(zip(dims, sizes))]
+    grids = [make_grid(g, k, n, family, d, cfg.get("zeros", False)) for d, (k, n) in enumerate(zip(dims, sizes))]
     if mode == "aliased":      # the same Grid object used for the first and the last domain
         grids[-1] = grids[0]
     return MultiDomainGrid(list(grids)), grids
@@ -170,7 +178,7 @@ def chunk_sizes(total, tier, full):
 
 def variant(cfg):
     sz = "with-size-1" if 1 in cfg["sizes"] else "sizes>1"
-    return f"D{len(cfg['dims'])}:{'-'.join(f'{k}d' for k in cfg['dims'])}:{cfg['mode']}:{sz}"
+    return f"D{len(cfg['dims'])}:{'-'.join(f'{k}d' for k in cfg['dims'])}:{cfg['mode']}{'+zero-weights' if cfg.get('zeros') else ''}:{sz}"
 
 
 def snapshot(grids):
@@ -531,6 +539,10 @@ def configs(tier, seed):
     for s in [(2, 3, 2), (3, 1, 3), (4, 5, 4)]:
         k = 1 if s[0] % 2 else 3
         out.append({"dims": [k, 3 if k == 1 else 1, k], "sizes": list(s), "mode": "aliased"})
+    # runs of exactly-zero weights (chunks made of zero weights only), every chunk size
+    for dims, sizes, mode in (([1, 1], [4, 3], "list"), ([3, 1], [5, 4], "list"), ([1, 3, 1], [4, 2, 3], "list"), ([1, 1], [5, 5], "repeat"), ([3, 3, 3], [4, 4, 4], "repeat"),
+                              ([1, 2], [6, 5], "list"), ([1, 3, 1], [3, 3, 3], "aliased")):
+        out.append({"dims": dims, "sizes": sizes, "mode": mode, "zeros": True})
     # four domains (quick: two fixed layouts; thorough: a third of all size tuples up to 3x4x3x4)
     if tier == "quick":
         out.append({"dims": [1, 3, 1, 3], "sizes": [2, 1, 3, 2], "mode": "list"})
